@@ -6,10 +6,10 @@
   PROVED here, for EVERY 64-bit limb: the per-limb reduction (popcount.c:53-55: field-wise action, no overflow between
   fields, fields add up to the limb's bit count), the whole 4-limb block (:53-80, block_eq, block_le_256) and the tail
   loop's per-limb step (:96-99, tailLimb_fields).
-  NOT yet proved (run only, see TRUSTED of tools/props/c10_swar.py): the tail accumulation/folds as a whole, the outer
-  loop, hence popcount_swar_eq / hamdist_swar_eq.
+  and the tail (tail_eq), the outer loop, hence popcount_swar_eq(_mod), hamdist_swar_eq and the digit-sum corollaries.
 -/
 import MpirProofs.Lemmas.Swar
+import MpirProofs.Props.C10
 namespace Mpir.Swar
 open Mpir
 
@@ -63,6 +63,47 @@ example : block (B - 1) (B - 1) (B - 1) (B - 1) = 256 := by decide
     into a neighbouring byte before the mask. -/
 theorem tailLimb_fields (u : Nat) (hu : u < B) : tailLimb u = mapB pc8 8 u := tailLimb_bytes u hu
 example : tailLimb 0xffff00000f0100f3 = 0x0808000004010006 := by decide
+
+/-- popcount.c:93-114, the tail for the n & 3 remaining limbs (any list of at most 3 limbs, all contents): the byte
+    fields of x stay ≤ 24 during the accumulation :101 (no carry between fields, no wrap), the folds :109-112 add them
+    and the masked byte :114 is exactly the number of one bits of the remaining limbs (≤ 192, fits the byte). -/
+theorem tail_eq (us : List Nat) (hl : Limbs us) (hn : us.length ≤ 3) :
+    tailFin (tailLoop us 0) = Bits.mpn_popcount us := tail_popc us hl hn
+example : tailFin (tailLoop [B - 1, B - 1, B - 1] 0) = 192 := by decide
+
+/-- mpn_popcount of popcount.c, statement by statement, equals for EVERY limb list (all lengths, all contents) the
+    "by meaning" model of part c10_bits (sum of the per-limb bit counts), reduced modulo 2^64 because `result` is an
+    mp_bitcnt_t.  This closes the TRUSTED item of c10_bits about the SWAR loop. -/
+theorem popcount_swar_eq_mod (u : List Nat) (hu : Limbs u) : mpn_popcount u = Bits.mpn_popcount u % B :=
+  popcount_mod u hu
+example : mpn_popcount [B - 1, 0, 5, 7, B - 1, 1] = 134 ∧ Bits.mpn_popcount [B - 1, 0, 5, 7, B - 1, 1] = 134 := by decide
+
+/-- … and without the modulus whenever the count is representable (64·n < 2^64, true for every operand that fits
+    in memory). -/
+theorem popcount_swar_eq (u : List Nat) (hu : Limbs u) (hn : 64 * u.length < B) :
+    mpn_popcount u = Bits.mpn_popcount u := by
+  rw [popcount_swar_eq_mod u hu, Nat.mod_eq_of_lt (Nat.lt_of_le_of_lt (psum_le u) hn)]
+example : mpn_popcount [B - 1, B - 1, B - 1, B - 1, 3] = 258 := by decide
+
+/-- mpn_hamdist (hamdist.c = the same code with POPHAM(u,v) = u ^ v) equals the by-meaning model for all operand
+    pairs of equal length (the C's precondition: one size n for both). -/
+theorem hamdist_swar_eq (u v : List Nat) (hu : Limbs u) (hv : Limbs v) (hl : u.length = v.length)
+    (hn : 64 * u.length < B) : mpn_hamdist u v = Bits.mpn_hamdist u v := by
+  obtain ⟨_, l, len⟩ := Bits.xor_n_spec u v hu hv hl
+  show mpn_popcount (Bits.xor_n u v) = Bits.mpn_popcount (Bits.xor_n u v)
+  exact popcount_swar_eq _ l (by rw [len]; exact hn)
+example : mpn_hamdist [B - 1, 1, 0, 7, 9] [0, 3, 0, 7, 8] = 66 := by decide
+
+/-- the SWAR code computes the plain bit count: the sum of the binary digits of the operand's value. -/
+theorem popcount_swar_digits (u : List Nat) (hu : Limbs u) (hn : 64 * u.length < B) :
+    mpn_popcount u = (Nat.digits 2 (val u)).sum := by
+  rw [popcount_swar_eq u hu hn, Bits.mpn_popcount_spec u hu]
+
+/-- the SWAR hamming distance is the number of differing bit positions. -/
+theorem hamdist_swar_digits (u v : List Nat) (hu : Limbs u) (hv : Limbs v) (hl : u.length = v.length)
+    (hn : 64 * u.length < B) : mpn_hamdist u v = (Nat.digits 2 (val u ^^^ val v)).sum := by
+  rw [hamdist_swar_eq u v hu hv hl hn, Bits.mpn_hamdist_spec u v hu hv hl]
+example : mpn_hamdist [B - 1, 1] [0, 3] = 65 := by decide
 
 /-! popcount.c:79 masks BEFORE adding: a full block contributes 256, which does not fit the byte field.  The variant
     `x = (x >> 32) + x; … x & 0xff` (what the tail at :112-114 does, where at most 3 limbs = 192 bits arrive) is WRONG
